@@ -45,8 +45,21 @@ type MPTStats struct {
 
 var bigValue []byte
 
+// MaxValBudget is the number of generated histories that still get values of exactly the largest accepted size.
+var MaxValBudget int
+
+// MaxValToken names a value of util.MPTMaxAllowableNodeSize bytes (a run of c).
+func MaxValToken(c byte) string { return fmt.Sprintf("@L%d.%c", util.MPTMaxAllowableNodeSize, c) }
+
 // ValBytes turns a value token of a generator into bytes.
 func ValBytes(tok string) []byte {
+	if strings.HasPrefix(tok, "@L") {
+		var n int
+		var c byte
+		if _, err := fmt.Sscanf(tok, "@L%d.%c", &n, &c); err == nil {
+			return bytes.Repeat([]byte{c}, n)
+		}
+	}
 	if len(tok) > 1 && tok[0] == 'x' {
 		var out []byte
 		fmt.Sscanf(tok[1:], "%x", &out)
@@ -61,6 +74,7 @@ type MPTConfig struct {
 	Version int64
 	Init    [][2]string // pre-existing lower content (level configs): path, valuetoken
 	InitVer int64       // version at which Init was built
+	Cold    bool        // a fresh trie object (cold node cache) for every operation
 }
 
 // MHist is one history: optional start content (built silently through the
@@ -174,7 +188,7 @@ func RunMPTHistory(w *tr.Writer, in *tr.Interner, st *MPTStats, tid int, cfgIdx 
 	st.Events++
 	// over older lower content every operation runs on a fresh trie object (cold node cache), as a new block's trie
 	// does: nodes are then fetched from the stores themselves, not from copies the observation left in the cache
-	cold := len(cfg.Init) > 0 && cfg.InitVer != cfg.Version
+	cold := cfg.Cold || (len(cfg.Init) > 0 && cfg.InitVer != cfg.Version)
 	for i, op := range ops {
 		if cold {
 			env.Trie = util.NewMerklePatriciaTrie(env.DB, util.Sequence(cfg.Version), env.Trie.GetRoot(), NewTxnCache())
@@ -340,6 +354,11 @@ func GenMPTHistory(r *rand.Rand, maxOps int) []MOp {
 	var pool [][]byte
 	nops := 3 + r.Intn(maxOps)
 	vals := []string{"a", "b", "c", "x3a", "x003a00ff", "x0a", "hello"}
+	if MaxValBudget > 0 {
+		// the size limit from below: values of exactly the largest accepted size are values like any other
+		MaxValBudget--
+		vals = append(vals, MaxValToken('m'), MaxValToken('n'))
+	}
 	if r.Intn(4) == 0 {
 		// long values (values are binary tokens: "x" + hex)
 		for i := 0; i < 3; i++ {
